@@ -1,8 +1,9 @@
 //! C18 — terminal I/O failures never panic, poison or corrupt logical state.
 //!
 //! fault_enumeration: for each sampled history the fault-free run counts the terminal calls N;
-//! then EVERY index k in 0..N is failed, once ("only call k fails") and persistently ("call k
-//! and all later calls fail"), with rotating error kinds, and the history is continued and
+//! then EVERY index k in 0..N is failed, once ("only call k fails"), persistently ("call k
+//! and all later calls fail") and intermittently ("call k, then every later call with
+//! probability 1/2"), with rotating error kinds, and the history is continued and
 //! followed by an exercise of every bar, sibling and the MultiProgress.
 
 use verif_simrt::rng::Rng;
@@ -162,7 +163,7 @@ impl Check for C18 {
         "fault_enumeration"
     }
     fn rule_text(&self) -> String {
-        "Histories (3..15 quick / 3..30 thorough calls; standalone bars and MultiProgress with siblings; tick/inc/set_message/set_prefix/set_length/set_style/set_tab_width/println/suspend/reset/finish*/force_draw/iterator completion, add/insert*/remove/drop, mp.println/clear/suspend, optional steady ticker + simulated sleeps) are sampled from the seed. For each history the fault-free run counts the terminal calls N; then every index k in 0..N is failed in two modes (only call k fails / call k and all later calls fail) with rotating io::ErrorKind (Other, BrokenPipe, Interrupted, WouldBlock, WriteZero): exhaustive over (k, mode) per history. Oracle: no call panics on any simulated thread; getters (position, length, message, prefix, is_finished) after every call equal the fault-free run; mp.println/mp.clear return Err iff a terminal call failed during them; afterwards every bar, sibling and the MultiProgress are exercised and dropped without panic (a poisoned lock shows there). Non-trivial: history with N >= 3 terminal calls. Distinct = distinct scenario hash; 'executions_including_sub_runs' counts the enumerated fault runs.".into()
+        "Histories (3..15 quick / 3..30 thorough calls; standalone bars and MultiProgress with siblings; tick/inc/set_message/set_prefix/set_length/set_style/set_tab_width/println/suspend/reset/finish*/force_draw/iterator completion, add/insert*/remove/drop, mp.println/clear/suspend, optional steady ticker + simulated sleeps) are sampled from the seed. For each history the fault-free run counts the terminal calls N; then every index k in 0..N is failed in three modes (only call k fails / call k and all later calls fail / call k fails and each later call fails with probability 1/2, a fixed function of the indices) with rotating io::ErrorKind (Other, BrokenPipe, Interrupted, WouldBlock, WriteZero): exhaustive over (k, mode) per history. Oracle: no call panics on any simulated thread; getters (position, length, message, prefix, is_finished) after every call equal the fault-free run; mp.println/mp.clear return Err iff a terminal call failed during them; afterwards every bar, sibling and the MultiProgress are exercised and dropped without panic (a poisoned lock shows there). Non-trivial: history with N >= 3 terminal calls. Distinct = distinct scenario hash; 'executions_including_sub_runs' counts the enumerated fault runs.".into()
     }
     fn assumptions(&self) -> Vec<String> {
         vec![
@@ -260,12 +261,13 @@ impl Check for C18 {
         let plans: Vec<(u64, u64)> = if pinned {
             vec![(sc.c("fault_k"), sc.c("fault_mode"))]
         } else {
-            (0..n).flat_map(|k| [(k, 0u64), (k, 1u64)]).collect()
+            (0..n).flat_map(|k| [(k, 0u64), (k, 1u64), (k, 2u64)]).collect()
         };
         for (k, mode) in plans {
             let plan = FaultPlan {
                 fail_at: if mode == 0 { vec![k] } else { vec![] },
                 fail_from: if mode == 1 { Some(k) } else { None },
+                flaky_from: if mode == 2 { Some(k) } else { None },
                 slow_flush_ns: 0,
                 kind_seed: k,
             };
@@ -274,14 +276,14 @@ impl Check for C18 {
             total.steps += o.report.steps;
             total.sim_ns += o.report.sim_ns;
             total.context_switches += o.report.context_switches;
-            *total.faults.entry(if mode == 0 { "terminal_call_failed_once".into() } else { "terminal_calls_fail_from_k".into() }).or_insert(0) += 1;
+            *total.faults.entry(["terminal_call_failed_once", "terminal_calls_fail_from_k", "terminal_calls_flaky_from_k"][mode as usize % 3].into()).or_insert(0) += 1;
             *total.faults.entry("terminal_call_errors_returned".into()).or_insert(0) += o.failed_calls;
             if let Some(e) = o.report.harness_error {
                 total.harness_error = Some(e);
                 return total;
             }
             if let Some((rule, d)) = o.report.violation {
-                total.violation = Some((rule, format!("fault plan: terminal call #{k} {} -> {d}", if mode == 0 { "fails once" } else { "and all later calls fail" })));
+                total.violation = Some((rule, format!("fault plan: terminal call #{k} {} -> {d}", ["fails once", "and all later calls fail", "fails and every later call fails with probability 1/2"][mode as usize % 3])));
                 total.schedule = o.report.schedule;
                 return total;
             }
